@@ -9,7 +9,7 @@ VARIABLE prog
 Alphabet == {[k |-> "if", c |-> <<[t |-> "num", v |-> 1]>>],
              [k |-> "if", c |-> <<[t |-> "num", v |-> 0]>>],
              [k |-> "ifdef", n |-> "U"], [k |-> "ifndef", n |-> "U"],
-             [k |-> "else"], [k |-> "endif"], [k |-> "mark", b |-> 0]}
+             [k |-> "else"], [k |-> "endif"], [k |-> "mark", b |-> 0], [k |-> "note", d |-> "else"]}
 \* marks get distinct bytes by position so that order and identity are visible
 Number(p) == IF p = <<>> THEN <<>> ELSE [i \in 1..Len(p) |-> IF p[i].k = "mark" THEN [p[i] EXCEPT !.b = 16 + i] ELSE p[i]]
 
